@@ -267,7 +267,15 @@ pub fn c16(tier: Tier) -> ! {
             let doc2 = reread.to_json();
             let want = ita_family(name);
             let dof = if want == "Monoclinic" { 6 } else { 5 };
-            for (what, d, st) in [("built for the group", &doc, &built), ("written and read back", &doc2, &reread)].iter() {
+            let copy = built.clone();
+            let doc3 = copy.to_json();
+            for (what, d, st) in [("built for the group", &doc, &built), ("written and read back", &doc2, &reread), ("copied", &doc3, &copy)].iter() {
+                // (the operations it carries are still the group's)
+                let ita: Vec<Aff> = ita_ops(name).iter().map(|o| o.as_aff()).collect();
+                let carried: Vec<Aff> = d["occupied_sites"][0]["wyckoff"]["symmetries"].as_array().map(|l| l.iter().filter_map(Aff::from_json9).collect()).unwrap_or_default();
+                if !(carried.len() == ita.len() && ita.iter().all(|i| carried.iter().filter(|o| aff_eq_mod_lattice(o, i)).count() == 1)) {
+                    run.fail(None, &format!("{}: a state {} no longer carries the general positions of the group", name, what), json!({"engine": "pairing", "group": name, "state": d}));
+                }
                 paired += 1;
                 evals += 1;
                 let fam = (d["wallpaper"]["family"].as_str().unwrap_or(""), d["cell"]["family"].as_str().unwrap_or(""));
